@@ -290,6 +290,11 @@ def check(case, ctx):
                     ctx.fail('library-comp-vs-table', comp, base[2][1], entry=label, spelling=base_sp)
                 if base[0][0] != 'ok':
                     ctx.fail('library-cannot-resolve-entry', e['mono'], base[0][1], entry=label, spelling=base_sp)
+                if db == 'mono' and base[1][0] == 'ok':
+                    # monosaccharides: the average mass the library reports is that of the tabulated composition too
+                    refa = refdata.comp_mass(comp, False)
+                    if not lib.close(base[1][1], refa, 2e-3):
+                        ctx.fail('library-avg-vs-composition', refa, base[1][1], entry=label, spelling=base_sp)
         if db == 'psimod' and e.get('formula') not in (None, 'none'):
             # PSI-MOD rows spell their composition as 'C 2 H 2 O 1' / '(13)C 6': the library's composition is that one
             # (an all-zero row is the empty composition with mass 0, not an unresolvable entry)
